@@ -32,7 +32,7 @@ func c39Consistency(key any, envelope []byte, rng *drbg) error {
 		return fmt.Errorf("NewSignerFromKey(%T) %v", key, e)
 	}
 	if err != nil {
-		return fmt.Errorf("accepted key (%T) cannot be turned into a signer: %v", key, err)
+		return fmt.Errorf("UNUSABLE: accepted key (%T) cannot be turned into a signer: %v", key, err)
 	}
 	pub := signer.PublicKey()
 	msg := rng.bytes(1 + rng.intn(90))
@@ -41,7 +41,7 @@ func c39Consistency(key any, envelope []byte, rng *drbg) error {
 		return fmt.Errorf("signing with an accepted %s key %v", pub.Type(), e)
 	}
 	if err != nil {
-		return fmt.Errorf("accepted %s key cannot sign: %v", pub.Type(), err)
+		return fmt.Errorf("UNUSABLE: accepted %s key cannot sign: %v", pub.Type(), err)
 	}
 	if err := pub.Verify(msg, sig); err != nil {
 		return fmt.Errorf("a signature made with the accepted %s key does not verify under its own public key: %v", pub.Type(), err)
@@ -74,7 +74,7 @@ var c39Anomalies = map[string][]string{
 	},
 	rk.TEd25519: {"inner-pub-other", "inner-pub-other", "priv-tail-other", "priv-tail-other", "priv-tail-and-inner-other", "all-pub-other", "seed-other", "priv-len-63", "priv-len-65", "pub-len-31", "priv-tail-zero"},
 	"ecdsa":     {"point-other", "point-other", "d-other", "d-plus-n", "d-zero", "d-negative", "curve-field-other", "point-compressed", "point-infinity", "point-off-curve", "env-noncanonical-none"},
-	rk.TRSA:     {"n-other", "d-wrong", "d-other", "d-plus-lambda", "iqmp-wrong", "pq-swapped", "e-other", "e-even", "p-plus-2", "env-e-other", "env-noncanonical", "n-negative", "d-negative"},
+	rk.TRSA:     {"n-other", "d-wrong", "rsa-d-other", "d-plus-lambda", "iqmp-wrong", "pq-swapped", "e-other", "e-even", "p-plus-2", "env-e-other", "env-noncanonical", "n-negative", "rsa-d-negative"},
 }
 
 // envelope-level anomalies: the container itself is malformed, so nothing is
@@ -103,9 +103,26 @@ var (
 )
 
 // cachedCrypt memoises the reference KDF (the expensive part) per
-// (passphrase, salt, rounds).
+// (passphrase, salt, rounds); salts come from a small fixed set.
 func cachedCrypt(cipherName string, pass, salt []byte, rounds int, in []byte) ([]byte, error) {
-	return rk.CryptSection(cipherName, pass, salt, rounds, in, false)
+	id := fmt.Sprintf("%x|%x|%d", pass, salt, rounds)
+	kdfMu.Lock()
+	k, ok := kdfCache[id]
+	kdfMu.Unlock()
+	if !ok {
+		k = rk.BcryptPBKDF(pass, salt, rounds, 48)
+		if k == nil {
+			return nil, errors.New("bad bcrypt_pbkdf parameters")
+		}
+		kdfMu.Lock()
+		kdfCache[id] = k
+		kdfMu.Unlock()
+	}
+	return rk.CryptSectionKey(cipherName, k, in, false)
+}
+
+var c39Salts = [][]byte{
+	[]byte("0123456789abcdef"), {0xff, 0, 0xff, 0, 1, 2, 3, 4, 5, 6, 7, 8, 9, 10, 11, 0x80}, {0x42}, bytes.Repeat([]byte{0xa5, 0x5a}, 16),
 }
 
 var c39Passphrases = []string{"x", "correct horse", "pässwörd ✓", strings.Repeat("long passphrase ", 7), "\x00\x01", " "}
@@ -165,7 +182,7 @@ func c39Build(rt *rapid.T, kp *keyPool, k *tkey, anomaly string) *c39File {
 	}
 	if f.cipher != "none" {
 		f.pass = []byte(pick(rt, "pass", c39Passphrases))
-		salt = gen.RandBytes(rt, "salt", pick(rt, "saltlen", []int{16, 16, 1, 32}))
+		salt = pick(rt, "salt", c39Salts)
 		rounds = pick(rt, "rounds", []int{1, 1, 2, 3})
 		pf.Cipher, pf.KDF, pf.KDFOpts, pf.Block = f.cipher, "bcrypt", rk.BcryptOpts(salt, uint32(rounds)), 16
 	}
@@ -177,7 +194,7 @@ func c39Build(rt *rapid.T, kp *keyPool, k *tkey, anomaly string) *c39File {
 		pf.Inner = rk.InnerRSA(n, e, d, iqmp, p, q, f.comment)
 	}
 	switch anomaly {
-	case "none":
+	case "none", "truncated", "magic":
 	case "env-other-same-type":
 		pf.PubBlobs[0] = o.blob
 	case "env-other-type":
@@ -327,7 +344,7 @@ func c39Build(rt *rapid.T, kp *keyPool, k *tkey, anomaly string) *c39File {
 			rsaInner(o.rsa.N, e, r.D, iq, p, q)
 		case "d-wrong":
 			rsaInner(r.N, e, new(big.Int).Add(r.D, big.NewInt(2)), iq, p, q)
-		case "d-other":
+		case "rsa-d-other":
 			rsaInner(r.N, e, o.rsa.D, iq, p, q)
 		case "d-plus-lambda":
 			p1, q1 := new(big.Int).Sub(p, big.NewInt(1)), new(big.Int).Sub(q, big.NewInt(1))
@@ -355,7 +372,7 @@ func c39Build(rt *rapid.T, kp *keyPool, k *tkey, anomaly string) *c39File {
 			pf.PubBlobs[0] = w.S(rk.TRSA).MpintPadded(e, rapid.IntRange(0, 2).Draw(rt, "epad")).MpintPadded(r.N, rapid.IntRange(1, 3).Draw(rt, "npad")).B
 		case "n-negative":
 			rsaInner(new(big.Int).Neg(r.N), e, r.D, iq, p, q)
-		case "d-negative":
+		case "rsa-d-negative":
 			rsaInner(r.N, e, new(big.Int).Neg(r.D), iq, p, q)
 		default:
 			panic("unknown anomaly " + anomaly)
@@ -436,6 +453,14 @@ func c39Constructed(rt *rapid.T, c *ev.Collector, kp *keyPool) {
 				rt.Fatalf("VF-INCONCLUSIVE: %v", cerr)
 			}
 			what := fmt.Sprintf("%s key file with anomaly %q (cipher %s) is accepted but inconsistent: %v", typ, anomaly, f.cipher, cerr)
+			if _, listed := ev.IsKnownFinding("F9"); listed && group == "ecdsa" && anomaly == "d-negative" && strings.HasPrefix(cerr.Error(), "UNUSABLE:") {
+				// F9: a negative private scalar -d passes the Q == dG check (which
+				// uses |d|); the returned key has D < 0 and cannot sign
+				c.Excluded()
+				c.Known("F9 ParseRawPrivateKey accepts an OpenSSH ECDSA key file whose private scalar is negative (-d passes the point check through |d|); the returned key cannot sign")
+				c.Case(true, "F9|"+typ, append(classes, "result=known-F9")...)
+				return
+			}
 			if _, listed := ev.IsKnownFinding("F5"); listed && c39F5Class[anomaly] {
 				c.Excluded()
 				c.Known("F5 ParseRawPrivateKey accepts OpenSSH key files whose redundant public key copies disagree with the private key (" + typ + ": " + anomaly + ")")
@@ -614,10 +639,14 @@ func c39Tool(t *testing.T, c *ev.Collector, kp *keyPool) {
 	if ev.Thorough() {
 		types = append(types, [2]string{"rsa", "3072"}, [2]string{"rsa", "1024"}, [2]string{"rsa", "4096"}, [2]string{"rsa", "2047"})
 	}
-	for _, ty := range types {
+	for i, ty := range types {
+		defRounds := 0 // ssh-keygen's default (16 rounds) is the expensive one: two types in quick
+		if !ev.Thorough() && i%4 != 0 {
+			defRounds = 3
+		}
 		specs = append(specs,
 			c39ToolSpec{typ: ty[0], bits: ty[1]},
-			c39ToolSpec{typ: ty[0], bits: ty[1], cipher: "", rounds: 0, pass: "tool pass ü"},
+			c39ToolSpec{typ: ty[0], bits: ty[1], cipher: "", rounds: defRounds, pass: "tool pass ü"},
 			c39ToolSpec{typ: ty[0], bits: ty[1], cipher: "aes256-cbc", rounds: 2, pass: "p"},
 			c39ToolSpec{typ: ty[0], bits: ty[1], cipher: "aes256-ctr", rounds: 1, pass: strings.Repeat("long ", 20)},
 		)
